@@ -78,7 +78,8 @@ StepTags(k) ==
             (* lines for a connection whose client does not read are produced but cannot be observed *)
             LET stalledC == {d \in DOMAIN pre.conns : pre.conns[d].stalled} \cup {d \in DOMAIN R.st.conns : R.st.conns[d].stalled}
                 expOut == SelectSeq(R.out, LAMBDA m : m.to \notin stalledC)
-            IN runTags \cup StateTags(R.st, obs) \cup OutTagsFor(r.c, expOut, r.outs) \cup (InvTags(obs) \ InvTags(pre))
+            IN runTags \cup StateTags(R.st, obs) \cup ForeignTags(r.c, pre, R.st, obs)
+                       \cup OutTagsFor(r.c, expOut, r.outs) \cup (InvTags(obs) \ InvTags(pre))
 
 Report(k, tags) ==
     LET r == Rec[k]
